@@ -480,8 +480,27 @@ class Interp:
             frame.env[target.id] = v
         elif isinstance(target, (ast.Tuple, ast.List)):
             elts = target.elts
-            vals = self.unpack(v, len(elts),
-                               any(isinstance(e, ast.Starred) for e in elts))
+            stars = [i for i, e in enumerate(elts)
+                     if isinstance(e, ast.Starred)]
+            if len(stars) == 1 and v.op != "ite":
+                # a, *rest, z = v : a = v[0], rest = v[1:-1], z = v[-1]
+                k = stars[0]
+                after = len(elts) - k - 1
+                vals = [tm.sub(v, const(i)) for i in range(k)]
+                vals.append(tm.sub(v, T("slice",
+                                        const(k) if k else NONE,
+                                        const(-after) if after else NONE,
+                                        NONE)))
+                vals += [tm.sub(v, const(i - after)) for i in range(after)]
+                if v.op in ("tuple", "list") and not any(
+                        x.op == "star" for x in v.args) and \
+                        len(v.args) >= len(elts) - 1:
+                    items = list(v.args)
+                    vals = items[:k] + [T("list", *items[k:len(items) -
+                                                         after])] + \
+                        items[len(items) - after:]
+            else:
+                vals = self.unpack(v, len(elts), bool(stars))
             for e, x in zip(elts, vals):
                 if isinstance(e, ast.Starred):
                     self.assign(e.value, x, frame, live, stmt)
